@@ -450,6 +450,16 @@ def sec_real_types(rep):
                 rep.add(ob_eval(f"C16/real-types/{kind}_total/TMC={tmc}/{nm}/rejected-explicitly", ok, detail=f"{v}: {detail}", inputs={} if ok else dict(kind=kind, TMC=tmc, observed=detail, **{k: repr(x_) for k, x_ in kin.items()}), replay={"confirmed": True, "python": f"Runner(LO theory TMC={tmc}, {{'{kind}_total': [{dict(kin, y=0.5)!r}]}}).get_result()"}))
 
 
+def sec_finite_tables(rep, tier):
+    """A-ext made an obligation where it can be one: the tabulated N3LO massive coefficients are finite
+    everywhere (all B-spline coefficients and knots finite).  A NaN there does not surface as NaN -- the
+    runner's clean-up turns the whole order into zeros -- so 'a finite result' would be a silently
+    degraded one (C07 contract, re-discharged here)."""
+    from . import c07
+
+    c07.sec_finite_kernels(rep, tier)
+
+
 def sec_runner_totality(rep):
     """Runner.get_result returns for observables with 0, 1, 2, 3 points in every Q2 ordering (ties
     included) -- no internal index error for an empty or single-point observable: the result-placement
@@ -475,7 +485,7 @@ def run(rep, tier, seed, only=None):
         "in-repo formulas finite on their domain: C03 definedness obligations (run under C03)",
         "explicit rejection := ValueError / NotImplementedError / RuntimeError with a non-empty message",
     )
-    for nm, f in (("dispatch", lambda r: sec_dispatch(r, tier)), ("tmc", sec_tmc_dispatch), ("kinematics", sec_kinematics), ("nans", sec_nans), ("svhistory", sec_sv_history), ("runnertotality", sec_runner_totality), ("realtypes", sec_real_types)):
+    for nm, f in (("dispatch", lambda r: sec_dispatch(r, tier)), ("tmc", sec_tmc_dispatch), ("kinematics", sec_kinematics), ("nans", sec_nans), ("svhistory", sec_sv_history), ("runnertotality", sec_runner_totality), ("realtypes", sec_real_types), ("finitetables", lambda r: sec_finite_tables(r, tier))):
         if only and only not in nm:
             continue
         rep.add(guarded(f"C16/{nm}", lambda f=f: (f(rep), [])[1]))
